@@ -170,6 +170,16 @@ def run(ctx):
         findings_total += 1
         ctx.violation("concurrent-traffic:" + f["sig"], "%s | %s" % (f.get("detail"), f.get("config", "")), f)
     traces["traffic"] = tpath
+    # channels ended while their own side is inside Send, over a stalling network: a state must not go back to its pool
+    # while a goroutine still uses it (findings and crashes only, the trace is that of the pools)
+    tpath2 = os.path.join(td, "pool_rough.ndjson")
+    summary, fnd, _ = run_driver(ctx, "mtraffic", ctx.go_build("mtraffic"),
+                                 ["-out", os.path.join(td, "t2.ndjson"), "-runs", "60" if quick else "300", "-seed", str(ctx.seed + 7), "-rough", "-stall",
+                                  "-pooltrace", tpath2])
+    for f in fnd:
+        findings_total += 1
+        ctx.violation("concurrent-traffic-rough:" + f["sig"], "%s | %s" % (f.get("detail"), f.get("config", "")), f)
+    traces["traffic-rough"] = tpath2
     rd = ctx.scratch("r")
     tpath = os.path.join(rd, "pool_rpc.ndjson")
     summary, fnd, _ = run_driver(ctx, "mrpc", ctx.go_build("mrpc"),
